@@ -182,6 +182,62 @@ def call_space(gen: int, rng: random.Random, tier: str, temps: list[float]):
     return ac_calls, zone_calls
 
 
+def status_in_flight(ck, gen, rig, ac, spec, inst, reported, dist, replay0, ci) -> None:
+    """A request made while the client is still busy with a status frame.  The transport is under back-pressure (the
+    console is not reading), an AC status with another mode and a new fault code arrives - the client asks for the fault
+    text and that write waits - and during the wait the application calls set_target_temperature().  The console's
+    latest report is the new one: the request must be shaped (clipped, mode-dependent limits) by it."""
+    import dataclasses
+    s_ = inst.m["astat"]
+    cur = inst.ac_status[spec.number]
+    conn = rig.net.current()
+    if conn is None:
+        return
+    proto = conn.transport.get_protocol()
+    new_mode = s_.AcMode.HEAT if cur.mode != s_.AcMode.HEAT else s_.AcMode.COOL
+    new_err = 7 if cur.error_code != 7 else 9
+    st = dataclasses.replace(cur, mode=new_mode, error_code=new_err)
+    for t in ([31.0, 17.0] if ci % 2 == 0 else [17.0, 31.0])[:1]:
+        ck.count()
+        dist[f"at{gen}_request_while_status_in_flight"] += 1
+        n_rx = len(rig.console.received)
+        proto.pause_writing()
+        try:
+            T.push_ac_status(rig, st)
+            it = intent(gen, rig, "ac", ac, 4, [t])
+            task = rig.start(ac.set_target_temperature(t))
+        finally:
+            proto.resume_writing()
+        rig.pump()
+        if not task.done():
+            rig.advance(2 * 1024)
+        replay = dict(replay0, target="ac", call=4, args=[repr(t)],
+                      history=f"transport paused; AC status with mode {new_mode.name} and fault code {new_err} received (was {cur.mode.name}, "
+                              f"{cur.error_code}); set_target_temperature({t}) called; transport resumed")
+        frames = [f for f in rig.console.received[n_rx:] if spec_request(gen, "ac", f) is not None]
+        bad = None
+        if it[0] == "refuse":
+            if frames or not task.done() or not isinstance(task.exception(), ValueError):
+                bad = f"must raise ValueError and transmit nothing; got {len(frames)} control frame(s)"
+        elif it[0] == "ac":
+            if len(frames) != 1:
+                bad = f"{len(frames)} control frames transmitted for one accepted call"
+            else:
+                rq = spec_request(gen, "ac", frames[0])
+                rd = spec_parse("ac", common.run_model([rq[0]])[0], rq[1])
+                want = dict(it[1], pad=0)
+                if norm(rd) != norm(want):
+                    bad = f"frame {frames[0][8].hex()} reads {norm(rd)}, the call (by the console's latest report) means {norm(want)}"
+        if bad:
+            key = (gen, "in-flight")
+            reported[key] += 1
+            if reported[key] <= 2:
+                ck.violation("public call departs from the property",
+                             dict(replay, kind="call", trigger={"class": "call4-status-in-flight"}, failure=bad))
+        cur = st
+        st = dataclasses.replace(cur, mode=s_.AcMode.COOL if cur.mode != s_.AcMode.COOL else s_.AcMode.HEAT, error_code=new_err + 2)
+
+
 def run_sweep(ck: common.Check, prop: str, tier: str):
     rng = random.Random(ck.seed * 9973 + (4 if prop == "C04" else 11))
     dist = Counter()
@@ -325,6 +381,9 @@ def run_sweep(ck: common.Check, prop: str, tier: str):
                                                   "trigger": {"class": "call13-non-integer"},
                                                   "failure": f"damper value {x!r} is outside 0..100: must raise ValueError and transmit nothing; "
                                                              f"got {r} and {len(rig.console.received) - n_rx} frame(s)"})
+                if ci < 10:
+                    status_in_flight(ck, gen, rig, ac, spec, inst, reported, dist,
+                                     {"gen": gen, "ability": {"modes": modes, "fans": fans, "limits": lims, "ac_number": acn}}, ci)
                 if ci < 6:
                     link_down_calls(ck, gen, rig, ac, reported, dist, {"gen": gen, "ability": {"modes": modes, "fans": fans, "limits": lims, "ac_number": acn}})
             finally:
